@@ -20,6 +20,12 @@ judges every gradient component the code returns. Three engines, one case kind e
           the closed form from ``scipy.stats.norm`` with mean/std from ``predict`` and the
           incumbent recomputed from ``predict`` at all observed+pending candidates, and
           ``-compute_acq >= 0`` (``compute_acq`` is the criterion to be *minimised*: minus EI).
+          Each acquisition-function object lives through a *history*: between the evaluations for its own
+          predictor it is asked to score inputs for an unrelated ("foreign") predictor / dict of
+          predictors via ``predictor=``; after every such step value == value of a fresh object and of
+          the same object before the call, closed form w.r.t. the *own* incumbent, and gradient ==
+          differences are checked again; the value obtained through ``predictor=`` must equal the value
+          of an acquisition function created for those predictors.
 ``ops``   the custom autograd primitives: ``cholesky_factorization`` (vjp vs differences along
           symmetric directions on random SPD matrices) and ``AddJitterOp`` (matrix part and
           ``sigsq`` part), alone and chained as in ``cholesky_computations``.
@@ -254,6 +260,12 @@ def floors(tier):
         f["decided:acq_point:active_not_first:" + a] = 150 * m
         f["decided:acq_point:mcmc_active_not_first:" + a] = 60 * m
     f["decided:acq_point:mcmc"] = 300 * m
+    for a in ("EI", "LCB", "EIpu", "CEI"):
+        f["decided:acq_point:after_foreign_predictor_call:" + a] = 150 * m
+        f["decided:acq_value_history_independent:" + a] = 400 * m
+    f["decided:acq_value_same_as_before_foreign_call"] = 500 * m
+    f["decided:ei_closed_form:after_foreign_predictor_call"] = 400 * m
+    f["decided:acq_foreign_value"] = 3000 * m
     f["decided:ei_closed_form:mcmc"] = 100 * m
     f["decided:acq_point:CEI:none_feasible"] = 100 * m
     f["decided:acq_point:CEI:mixed"] = 15 * m
@@ -813,12 +825,45 @@ def _run_acq(spec, o):
     xi = [0.01, 0.01, 0.0, float(10 ** rng.uniform(-4, 0))][int(rng.integers(4))]
     kappa = float(rng.uniform(0.1, 4.0))
     expo = float(rng.uniform(0.05, 1.0)) if rng.random() < 0.7 else 1.0
-    acqs = {}
+    used_by = {"EI": [_TARGET], "LCB": [_TARGET], "EIpu": [_TARGET, _COST], "CEI": [_TARGET, _CONSTR]}
+
+    def make_acq(name, pp, as_dict_order=order):
+        """A fresh acquisition-function object of kind ``name`` on the predictors ``pp``."""
+        def dd(second):
+            return {_TARGET: pp[_TARGET], second: pp[second]} if as_dict_order == "first" else {second: pp[second], _TARGET: pp[_TARGET]}
+
+        if name == "EI":
+            return EIAcquisitionFunction(pp[_TARGET], jitter=xi)
+        if name == "LCB":
+            return LCBAcquisitionFunction(pp[_TARGET], kappa=kappa)
+        if name == "EIpu":
+            return EIpuAcquisitionFunction(dd(_COST), active_metric=_TARGET, exponent_cost=expo, jitter=xi)
+        return CEIAcquisitionFunction(dd(_CONSTR), active_metric=_TARGET, jitter=xi)
+
+    # ---- a second, unrelated tuning-job state on the same search space ("foreign" predictors): the
+    # same acquisition-function object is asked to score inputs for it via ``predictor=`` between the
+    # evaluations for its own predictor (what batch selection does with an updated model)
+    rng_h = np.random.default_rng([spec["seed"], 5])
+    history = spec.get("history", True)
+    fpreds, Xall_f = None, None
+    if history:
+        try:
+            spec_f = dict(spec, n=int(rng_h.integers(2, 16)), npend=int(rng_h.integers(0, 3)), nfant=int(rng_h.integers(1, 5)),
+                          feas=["mixed", "all", "none"][int(rng_h.integers(3))], ard=int(rng_h.integers(2)), warp=0, mean="scalar")
+            state_f, hp_f, Xall_f = _build_state(rng_h, spec_f)
+            fpreds = {}
+            for k, metric in enumerate((_TARGET, _COST, _CONSTR)):
+                fpreds[metric], _ = _build_predictor(rng_h, spec_f, state_f, hp_f, metric, False, metric != _COST, False, spec["seed"] + 10 + k)
+        except Exception as e:  # noqa: BLE001 - set-up
+            o.inconclusive("acq_foreign_predictor_build_failed:" + type(e).__name__)
+            fpreds = None
+    acqs, acqs_ref, acqs_foreign = {}, {}, {}
     try:
-        acqs["EI"] = (EIAcquisitionFunction(preds[_TARGET], jitter=xi), [_TARGET])
-        acqs["LCB"] = (LCBAcquisitionFunction(preds[_TARGET], kappa=kappa), [_TARGET])
-        acqs["EIpu"] = (EIpuAcquisitionFunction(pdict(_COST), active_metric=_TARGET, exponent_cost=expo, jitter=xi), [_TARGET, _COST])
-        acqs["CEI"] = (CEIAcquisitionFunction(pdict(_CONSTR), active_metric=_TARGET, jitter=xi), [_TARGET, _CONSTR])
+        for nm_ in ("EI", "LCB", "EIpu", "CEI"):
+            acqs[nm_] = (make_acq(nm_, preds), used_by[nm_])
+            acqs_ref[nm_] = make_acq(nm_, preds)  # never sees a foreign predictor
+            if fpreds is not None:
+                acqs_foreign[nm_] = make_acq(nm_, fpreds)  # the foreign predictors' own acquisition function
     except Exception as e:  # noqa: BLE001
         o.violate("acquisition_gradient", f"raised:acquisition_constructor:{type(e).__name__}", {"error": repr(e)[:300]})
         return
@@ -835,10 +880,39 @@ def _run_acq(spec, o):
     for name in spec.get("acqs", ["EI", "LCB", "EIpu", "CEI"]):
         acq, used = acqs[name]
         nx = len(xs_given) if xs_given else spec["xpoints"]
+        n_foreign = 0
         for k in range(nx):
             x = np.array(xs_given[k], dtype=float) if xs_given else _sample_x(rng, d, Xall, k)
             o.count("acq_points")
             o.ev("acq_point", name, [float(v) for v in x])
+            # ---- history step: the same object scores inputs for the foreign predictors
+            v_pre = None
+            if fpreds is not None and rng_h.random() < (0.7 if k else 0.5):
+                try:
+                    if k and rng_h.random() < 0.7:  # value for the own predictor just before the foreign call
+                        v_pre = float(np.asarray(acq.compute_acq(np.array(x).reshape(1, -1)), dtype=float).reshape(-1)[0])
+                    farg = fpreds[_TARGET] if name in ("EI", "LCB") else (
+                        {_TARGET: fpreds[_TARGET], used[1]: fpreds[used[1]]} if rng_h.random() < 0.5 else {used[1]: fpreds[used[1]], _TARGET: fpreds[_TARGET]})
+                    if name in ("EI", "LCB") and rng_h.random() < 0.3:
+                        farg = {_TARGET: fpreds[_TARGET]}
+                    xf = np.vstack([rng_h.uniform(X_MARGIN, 1 - X_MARGIN, size=(2, d)), x.reshape(1, -1)])
+                    o.ev("foreign_call", name, "grad" if k % 2 else "value")
+                    if rng_h.random() < 0.5:
+                        got = np.asarray(acq.compute_acq(np.array(xf), predictor=farg), dtype=float).reshape(-1)
+                    else:
+                        got = np.array([float(np.reshape(acq.compute_acq_with_gradient(np.array(r), predictor=farg)[0], (-1,))[0]) for r in xf])
+                    want = np.array([float(np.asarray(acqs_foreign[name].compute_acq(np.array(r).reshape(1, -1))).reshape(-1)[0]) for r in xf])
+                    n_foreign += 1
+                    o.count("foreign_predictor_calls")
+                    o.count("decided:acq_foreign_value", len(xf))
+                    for a_, b_, r_ in zip(got, want, xf):
+                        if (math.isfinite(a_) or math.isfinite(b_)) and not _value_equal(float(a_), float(b_), 1e-8 * abs(float(b_)) + 1e-300):
+                            o.violate("value_with_gradient_equals_value_alone", f"acq_value_for_given_predictor_differs_from_its_own_acq:{name}",
+                                      {"via_predictor_argument": a_, "own_acquisition_function": b_, "x": r_, "cell": cell})
+                            break
+                except Exception as e:  # noqa: BLE001
+                    o.violate("acquisition_gradient", f"raised:compute_acq_predictor_argument:{name}:{type(e).__name__}", {"x": x, "error": repr(e)[:300], "cell": cell})
+            hist = ":after_foreign_predictor_call" if n_foreign else ""
             try:
                 fv, g = acq.compute_acq_with_gradient(np.array(x))
             except Exception as e:  # noqa: BLE001
@@ -865,6 +939,24 @@ def _run_acq(spec, o):
             except Exception as e:  # noqa: BLE001
                 o.violate("acquisition_gradient", f"raised:compute_acq:{name}:{type(e).__name__}", {"x": x, "error": repr(e)[:300], "cell": cell, "nf": nf})
                 continue
+            # ---- same input => same value, whatever the object was asked before (a fresh object of the
+            # same kind on the same predictors that never saw a foreign predictor; and the object itself
+            # just before the foreign call)
+            try:
+                v_ref = float(np.asarray(acqs_ref[name].compute_acq(np.array(x).reshape(1, -1)), dtype=float).reshape(-1)[0])
+            except Exception as e:  # noqa: BLE001
+                o.violate("acquisition_gradient", f"raised:compute_acq:{name}:{type(e).__name__}", {"x": x, "error": repr(e)[:300], "cell": cell, "nf": nf})
+                continue
+            if n_foreign and (math.isfinite(v1) or math.isfinite(v_ref)):
+                o.count("decided:acq_value_history_independent")
+                o.count("decided:acq_value_history_independent:" + name)
+                bad = not _value_equal(v1, v_ref, 1e-300)
+                if v_pre is not None:
+                    o.count("decided:acq_value_same_as_before_foreign_call")
+                    bad = bad or not _value_equal(v1, v_pre, 1e-300)
+                if bad:
+                    o.violate("value_with_gradient_equals_value_alone", f"acq_value_changed_after_foreign_predictor_call:{name}",
+                              {"after": v1, "fresh_object": v_ref, "same_object_before": v_pre, "with_grad": fv, "x": x, "cell": cell, "foreign_calls": n_foreign})
             if math.isfinite(fv) or math.isfinite(v1):
                 o.count("decided:acq_value")
                 o.count("decided:acq_value:" + name)
@@ -911,8 +1003,10 @@ def _run_acq(spec, o):
                             o.count("decided:ei_closed_form:fantasies_gt1")
                         if multi_state:
                             o.count("decided:ei_closed_form:mcmc")
+                        if n_foreign:
+                            o.count("decided:ei_closed_form:after_foreign_predictor_call")
                         if abs(-v1 - closed) > 1e-9 * scale + 1e-300:
-                            o.violate("expected_improvement_closed_form", f"ei_closed_form_mismatch:{tag}",
+                            o.violate("expected_improvement_closed_form", f"ei_closed_form_mismatch:{tag}{hist}",
                                       {"minus_acq": -v1, "closed_form": closed, "mean": ms, "std": ss, "incumbent": incs, "xi": xi, "x": x, "cell": cell})
             # ---- gradient
             if clamps:
@@ -976,7 +1070,10 @@ def _run_acq(spec, o):
                         o.count("decided:acq_point:mcmc_active_not_first:" + name)
                 if name == "CEI":
                     o.count("decided:acq_point:CEI:" + cei_regime)
-                obs_sig.append((name, "all"))
+                if n_foreign:
+                    o.count("decided:acq_point:after_foreign_predictor_call")
+                    o.count("decided:acq_point:after_foreign_predictor_call:" + name)
+                obs_sig.append((name, "all" + ("+hist" if n_foreign else "")))
             elif n_dec:
                 o.count("partly_decided:acq_point:" + name)
                 o.inconclusive("acq_point_some_components_untrustworthy")
